@@ -224,17 +224,58 @@ def run(ctx):
 
     # ------------------------------------------------------------------ R3
     ctx.rule("R3", "no swallowed failure in the CLI", "an API exception caught or exit(0) reports success with partial content")
+    EXITS = ("sys.exit", "os._exit", "builtins.exit", "builtins.quit")
+
+    def exit_status(f, call):
+        """'nonzero' / 'zero' / None (not an exit call) for a call node."""
+        r = prog.resolve_expr(f, f.module, call.func)
+        nm = r[1] if r and r[0] == "external" else ""
+        if nm not in EXITS and nm != "builtins.SystemExit":
+            return None
+        if not call.args:
+            return "zero"
+        a = call.args[0]
+        if isinstance(a, ast.Constant):
+            return "zero" if a.value in (0, None, False) else "nonzero"
+        if isinstance(a, ast.Call) and any(g is main for cs in f.calls if cs.node is a for g in cs.callees):
+            return "main"
+        return "nonzero" if isinstance(a, (ast.JoinedStr,)) else "unknown"
+
+    def ends_failing(f, stmts):
+        """Every path through `stmts` ends by re-raising, exiting with a failure status, or (in main) returning one."""
+        if not stmts:
+            return False
+        last = stmts[-1]
+        if isinstance(last, ast.Raise):
+            return not (isinstance(last.exc, ast.Call) and exit_status(f, last.exc) == "zero")
+        if isinstance(last, ast.Expr) and isinstance(last.value, ast.Call):
+            return exit_status(f, last.value) == "nonzero"
+        if isinstance(last, ast.Return) and f is main:
+            return isinstance(last.value, ast.Constant) and last.value.value not in (0, None, False)
+        if isinstance(last, ast.If):
+            return ends_failing(f, last.body) and ends_failing(f, last.orelse)
+        return False
+
     for f in (main, conv, pa):
         bad = False
+        in_handler = set()
         for n in f.own_nodes():
             if isinstance(n, ast.Try):
-                ctx.violate("R3", "try statement in the CLI path (may swallow an API failure)", f, n, construct="try in " + f.name)
-                bad = True
+                for h in n.handlers:
+                    for x in h.body:
+                        in_handler.update(id(y) for y in ast.walk(x))
+                    if not ends_failing(f, h.body):
+                        ctx.violate("R3", f"a handler in the CLI path (`except {src_of(h.type) if h.type is not None else ''}`) does not end by re-raising or by a failure exit status: the failure is reported as success", f, h, construct=f"handler in {f.name}")
+                        bad = True
+                if n.finalbody and any(isinstance(x, (ast.Return, ast.Break, ast.Continue)) for st_ in n.finalbody for x in ast.walk(st_)):
+                    ctx.violate("R3", "a finally block in the CLI path leaves with return/break (discards a pending exception)", f, n, construct=f"finally in {f.name}")
+                    bad = True
+        for n in f.own_nodes():
             if isinstance(n, ast.Call):
                 r = prog.resolve_expr(f, f.module, n.func)
                 nm = r[1] if r and r[0] == "external" else ""
-                if nm in ("sys.exit", "os._exit", "builtins.exit", "builtins.quit", "os.abort"):
-                    ctx.violate("R3", f"explicit {nm} in the CLI path", f, n)
+                if nm in EXITS + ("os.abort",) and exit_status(f, n) in ("zero", "unknown") and id(n) in in_handler:
+                    ctx.violate("R3", f"{nm} with a success/unknown status inside a handler of the CLI path", f, n)
                     bad = True
                 if nm in ("builtins.open", "os.remove", "os.unlink", "os.rename", "shutil.copy", "shutil.move", "os.replace"):
                     ctx.violate("R3", f"the CLI touches files itself via {nm}", f, n)
@@ -243,7 +284,21 @@ def run(ctx):
                     ctx.violate("R3", "contextlib.suppress in the CLI path", f, n)
                     bad = True
         if not bad:
-            ctx.ok("R3", f"{f.name}: no try / exit / file access", f.where)
+            ctx.ok("R3", f"{f.name}: no handler that turns a failure into success, no suppress, no file access", f.where)
+    # a status returned by main() must reach the process exit status on every entry path
+    returns_status = any(isinstance(n, ast.Return) and n.value is not None and not (isinstance(n.value, ast.Constant) and n.value.value is None) for n in main.own_nodes())
+    topm = prog.module("iodata.__main__").toplevel
+    pmt = prog.parents(topm)
+    guard_calls = [cs for cs in topm.calls if main in cs.callees]
+    if not guard_calls:
+        ctx.violate("R3", "the `if __name__ == '__main__'` path does not call main()", topm, topm.node if hasattr(topm, "node") else None, construct="module guard")
+    for cs in guard_calls:
+        par = pmt.get(id(cs.node))
+        wrapped = isinstance(par, ast.Call) and exit_status(topm, par) == "main"
+        if returns_status and not wrapped:
+            ctx.violate("R3", "main() returns an exit status but the `python -m iodata` path calls it without passing the value to sys.exit: a failure reported through the return value exits with status 0", topm, cs.node)
+        else:
+            ctx.ok("R3", "module guard: main() " + ("status passed to sys.exit" if wrapped else "returns no status; failures propagate as exceptions (exit status 1)"), f"{main.module.relpath}:{cs.node.lineno}")
     # the __main__ guard calls main() and nothing else catches
     top = prog.module("iodata.__main__").toplevel
     for n in top.own_nodes():
